@@ -65,6 +65,11 @@ POOL: dict[str, list[BaseDistribution]] = {
     "d": [CategoricalDistribution((1, 2, None))],
     "m": [FloatDistribution(0.0, 1.0), IntDistribution(0, 1)],  # kind conflict: the storage refuses the second kind
     "w": [FloatDistribution(0.0, 1.0), FloatDistribution(0.0, 1.0, log=False, step=None)],  # equal objects
+    # single-valued domains (legal: low == high, a one-choice categorical, a range narrower than its step): samplers skip
+    # them, the search-space calculators must not
+    "s": [IntDistribution(3, 3), IntDistribution(3, 4)],
+    "t": [CategoricalDistribution(("only",))],
+    "u": [FloatDistribution(0.5, 0.5), FloatDistribution(0.0, 0.2, step=0.25)],
 }
 NAMES = sorted(POOL)
 _TOKENS: list[BaseDistribution] = []
